@@ -35,76 +35,40 @@ Proof.
   unfold covers. simpl. f_equal. apply IH.
 Qed.
 
-Lemma fe_numThreads_pos c : 0 <= fe_n c -> 0 <= fe_N c -> fe_decide c = FPar -> 1 <= fe_numThreads c.
-Proof.
-  intros Hn HN. unfold fe_decide.
-  destruct ((fe_n c =? 0) || (wrap 32 (fe_maxThreads c) =? 0)) eqn:E; [discriminate|].
-  destruct (fe_numThreads c =? 0) eqn:Z0; [discriminate|]. intros _.
-  apply orb_false_iff in E. destruct E as (E1 & _).
-  unfold fe_numThreads, fe_limit in *. destruct (fe_wait c); simpl in *; lia.
-Qed.
+Lemma fe_numThreads_pos c : 1 <= fe_numThreads c.
+Proof. unfold fe_numThreads. lia. Qed.
 
-Lemma C15_foreach_once_proof : forall c p, 0 <= fe_n c -> 0 <= fe_N c -> fe_plan c = Some p ->
-  forall i, visit_count p i = if (0 <=? i) && (i <? fe_n c) then 1 else 0.
+(* every element of [0,n) is visited by exactly one chunk and nothing else is: for EVERY pool size (zero threads
+   included), wait mode, maxThreads and n *)
+Lemma C15_foreach_once_proof : forall c, 0 <= fe_n c ->
+  forall i, visit_count (fe_plan c) i = if (0 <=? i) && (i <? fe_n c) then 1 else 0.
 Proof.
-  intros c p Hn HN Hp i. unfold fe_plan in Hp. destruct (fe_decide c) eqn:D; try discriminate.
-  - injection Hp as <-. simpl. unfold covers. simpl. lia.
-  - injection Hp as <-. pose proof (fe_numThreads_pos c Hn HN D) as Hnt.
-    unfold fe_calls. rewrite visit_calls, fe_bounds_eq.
-    apply contiguous_count. apply foreach_bounds_contiguous; assumption.
-Qed.
-
-(* the call fails to return normally exactly on the domain of the finding *)
-Lemma C15_divzero_iff_proof : forall c, 0 <= fe_n c -> 0 <= fe_N c ->
-  (fe_plan c = None <-> c15_dom c = true).
-Proof.
-  intros c Hn HN. unfold fe_plan, fe_decide, c15_dom, fe_numThreads, fe_limit.
-  destruct (fe_n c =? 0) eqn:E1; simpl.
-  - split; [discriminate|]. intro H. destruct (fe_N c =? 0); simpl in H; [|discriminate].
-    destruct (fe_wait c); simpl in H; [discriminate|]. destruct (0 <? fe_n c) eqn:E; [lia|discriminate].
-  - destruct (wrap 32 (fe_maxThreads c) =? 0) eqn:E2; simpl.
-    + split; [discriminate|]. rewrite !andb_false_r. discriminate.
-    + rewrite andb_true_r.
-      destruct (Z.min (Z.min (fe_N c + b2z (fe_wait c)) (Z.max (wrap_s 32 (fe_maxThreads c)) 1)) (fe_n c) =? 0) eqn:E3.
-      * split; [intros _|reflexivity]. destruct (fe_wait c); simpl in *.
-        -- lia.
-        -- destruct (fe_N c =? 0) eqn:E4; destruct (0 <? fe_n c) eqn:E5; simpl; try reflexivity; lia.
-      * split; [discriminate|]. intro H. destruct (fe_wait c); simpl in *.
-        -- rewrite andb_false_r in H. discriminate.
-        -- destruct (fe_N c =? 0) eqn:E4; simpl in H; [|discriminate]. lia.
-Qed.
-
-Lemma C15_refuted_proof :
-  exists c, 0 <= fe_N c /\ 0 < fe_n c /\ fe_decide c = FDivZero /\ fe_numThreads c = 0 /\ fe_plan c = None /\
-            c15_dom c = true /\ c = FE 5 0 3 false.
-Proof. exists (FE 5 0 3 false). vm_compute. repeat split; try reflexivity; discriminate. Qed.
-
-Lemma C15_holds_except_proof : forall c, 0 <= fe_n c -> 0 <= fe_N c -> c15_dom c = false ->
-  exists p, fe_plan c = Some p /\ forall i, visit_count p i = if (0 <=? i) && (i <? fe_n c) then 1 else 0.
-Proof.
-  intros c Hn HN Hd. destruct (fe_plan c) as [p|] eqn:P.
-  - exists p. split; [reflexivity|]. apply C15_foreach_once_proof; assumption.
-  - apply C15_divzero_iff_proof in P; [congruence|assumption|assumption].
+  intros c Hn i. unfold fe_plan. destruct (fe_decide c) eqn:D.
+  - simpl. unfold covers. simpl. lia.
+  - unfold fe_calls. rewrite visit_calls, fe_bounds_eq.
+    apply contiguous_count. apply foreach_bounds_contiguous; [assumption|apply fe_numThreads_pos].
 Qed.
 
 (* every application is made by a scheduled closure or by the calling thread before tasks.wait(): nothing is
    deferred past the wait (completion then follows from the task set's wait contract) *)
-Lemma C15_no_deferred_proof : forall c p, fe_plan c = Some p ->
-  forall a, In a p -> c_who a = CallerPre \/ exists j, c_who a = Task j.
+Lemma C15_no_deferred_proof : forall c a, In a (fe_plan c) -> c_who a = CallerPre \/ exists j, c_who a = Task j.
 Proof.
-  intros c p Hp a Ha. unfold fe_plan in Hp. destruct (fe_decide c); try discriminate; injection Hp as <-.
+  intros c a Ha. unfold fe_plan in Ha. destruct (fe_decide c).
   - destruct Ha as [<-|[]]. left. reflexivity.
   - unfold fe_calls in Ha. apply in_map_iff in Ha. destruct Ha as ([i [lo hi]] & <- & _). simpl.
     unfold fe_who. destruct (fe_wait c && (Z.of_nat i =? fe_numThreads c - 1)); [left; reflexivity|right; eexists; reflexivity].
 Qed.
 
+(* wait=true: the calling thread takes the last chunk; at most numThreads - 1 closures are scheduled *)
+Lemma C15_thread_count_proof : forall c, 1 <= fe_numThreads c <= Z.max 1 (wrap_s 32 (fe_maxThreads c)).
+Proof. intros c. unfold fe_numThreads, fe_limit. lia. Qed.
+
 (* number of chunks = numThreads <= the caller's limit (used by C48) *)
-Lemma fe_plan_length_proof : forall c p, 0 <= fe_n c -> 0 <= fe_N c -> fe_plan c = Some p ->
-  Z.of_nat (length p) <= Z.max 1 (wrap_s 32 (fe_maxThreads c)).
+Lemma fe_plan_length_proof : forall c, Z.of_nat (length (fe_plan c)) <= Z.max 1 (wrap_s 32 (fe_maxThreads c)).
 Proof.
-  intros c p Hn HN Hp. unfold fe_plan in Hp. destruct (fe_decide c) eqn:D; try discriminate; injection Hp as <-.
+  intros c. unfold fe_plan. destruct (fe_decide c).
   - simpl. lia.
-  - pose proof (fe_numThreads_pos c Hn HN D) as Hnt.
+  - pose proof (fe_numThreads_pos c) as Hnt.
     unfold fe_calls. rewrite map_length, combine_length, seq_length, Nat.min_id.
     unfold fe_bounds. destruct (gen_staticChunkSize (fe_n c) (fe_numThreads c)) as [t cc].
     rewrite map_length, seq_length. unfold fe_numThreads, fe_limit in *. lia.
